@@ -11,6 +11,8 @@ CONFIGS = [
     ("ext2_2k", ["-t", "ext2", "-b", "2048", "-O", "^resize_inode"], "20M"),
     ("ext4_quota", ["-t", "ext4", "-b", "1024", "-O", "quota"], "16M"),
     ("ext4_metabg", ["-t", "ext4", "-b", "1024", "-O", "meta_bg,^resize_inode", "-g", "1024"], "20M"),
+    # metadata spread over far more than 512 L2 tables: the writer's table cache is recycled many times
+    ("ext3_wide_1k", ["-t", "ext3", "-b", "1024", "-g", "256", "-O", "^resize_inode", "-N", "8192"], "272M"),
 ]
 
 
@@ -139,7 +141,10 @@ def metadata_blocks(fs):
 def one_case(src, mexe, idx, seed, tier):
     r = e2v.rng(seed, "c19", idx)
     name, opts, size = CONFIGS[idx % len(CONFIGS)]
-    base = mkimg.cached_fs(src, WORK, name, opts, size, 1 + idx // len(CONFIGS) % 2, fill=r.choice([0.2, 0.5]), nfiles=r.choice([40, 200]))
+    if name == "ext3_wide_1k":
+        base = mkimg.cached_fs(src, WORK, name, opts, size, 1, fill=0.01, nfiles=40, ndirs=1500)
+    else:
+        base = mkimg.cached_fs(src, WORK, name, opts, size, 1 + idx // len(CONFIGS) % 2, fill=r.choice([0.2, 0.5]), nfiles=r.choice([40, 200]))
     T = lambda p: os.path.join(src, p)
     env = e2v.tool_env(src)
     pre = os.path.join(WORK, "i_%d" % idx)
@@ -241,7 +246,7 @@ def run(res, replay=None):
     ]
     res.cov["partial"] = ["proved: the index arithmetic of the qcow2 map and refcounts and the disjointness of sequentially assigned data clusters; the writer's table/refcount-block allocation and e2image's own block discovery are validated per image by the independent decoder, not modelled",
                           "-I (install image), -b/-B (superblock options) and bigalloc/inline_data sources are outside the campaign"]
-    n = 6 if tier == "quick" else 240
+    n = 7 if tier == "quick" else 245
     idxs = [json.load(open(replay))["recipe"]["case_index"]] if replay else list(range(n))
     with concurrent.futures.ThreadPoolExecutor(6) as ex:
         outs = list(ex.map(lambda i: one_case(src, mexe, i, seed, tier), idxs))
